@@ -304,3 +304,64 @@ func H_C18_sign_listing() {
 		verifReach("C18.listing.end")
 	}
 }
+
+// histories: whether an event gets signed depends only on the signer in force when it is processed and on its type being
+// listed, never on what the node saw earlier (events of the same type before a signer existed, rotations, other types)
+func H_C18_history() {
+	callsA, callsB := 0, 0
+	sA := func(ctx context.Context, b []byte) (string, error) { callsA++; return "sigA", nil }
+	sB := func(ctx context.Context, b []byte) (string, error) { callsB++; return "sigB", nil }
+	f := &FormatterFilter{Source: &url.URL{Path: "src"}, SignEventTypes: []string{"listed", "listed2"}}
+	cur := 0
+	if nondetBool() {
+		f.Signer = sA
+		cur = 1
+	}
+	ctx := context.Background()
+	n := verifParam("STEPS")
+	for i := 0; i < n; i++ {
+		op := symLen(0, 4)
+		verifNoteInt("step", op)
+		switch op {
+		case 0, 1, 2:
+			t := [3]eventlogger.EventType{"listed", "listed2", "other"}[op]
+			a0, b0 := callsA, callsB
+			e := &eventlogger.Event{Type: t, Formatted: map[string][]byte{}, Payload: &cWithID{id: "id"}}
+			out, err := f.Process(ctx, e)
+			if err != nil {
+				// encoder / id-generation failures: covered by the single-step harness
+				verifAssert(out == nil, "C18.history.error-forwards-nothing")
+				return
+			}
+			verifAssert(out == e, "C18.history.forwarded")
+			wa, wb := a0, b0
+			if op != 2 && cur == 1 {
+				wa++
+			}
+			if op != 2 && cur == 2 {
+				wb++
+			}
+			verifAssert(callsA == wa && callsB == wb, "C18.history.signed-iff-listed-and-by-the-signer-in-force")
+			got, _ := e.Format(string(FormatJSON))
+			unsigned := Event{ID: "id", Source: "src", SpecVersion: "1.0", Type: string(t), Data: e.Payload, DataContentType: DataContentTypeCloudEvents, Time: e.CreatedAt}
+			u := encodeDoc(unsigned, false)
+			if op != 2 && cur != 0 {
+				signed := unsigned
+				signed.Serialized = base64.RawURLEncoding.EncodeToString([]byte(u))
+				signed.SerializedHmac = [3]string{"", "sigA", "sigB"}[cur]
+				verifAssert(string(got) == encodeDoc(signed, false), "C18.history.signed-document-stored")
+			} else {
+				verifAssert(string(got) == u, "C18.history.unsigned-document-stored")
+			}
+		case 3:
+			if f.Rotate(sA) == nil {
+				cur = 1
+			}
+		case 4:
+			if f.Rotate(sB) == nil {
+				cur = 2
+			}
+		}
+	}
+	verifReach("C18.history.end")
+}
